@@ -34,6 +34,9 @@ class Prop:
     def project(self, body):
         return body
 
+    def compare_from(self, case):
+        return 0
+
     def oracle(self, case, lines, model_lines=None):
         """Property oracle evaluated on the implementation's own output.
         Return None or a dict {kind, event, detail}."""
@@ -127,7 +130,7 @@ def run_property(prop, tier, seed, replay=None):
         for e in errs:
             problems.append("run-error: " + e[:300])
         for c in cases:
-            d = core.compare_case(c, impl, model, prop.project)
+            d = core.compare_case(c, impl, model, prop.project, prop.compare_from(c))
             if d:
                 disagreements.append((c, d))
             f = prop.oracle(c, impl.get(c.cid, {}), model.get(c.cid, {}))
@@ -156,7 +159,7 @@ def run_property(prop, tier, seed, replay=None):
     def shrink_disagreement(case):
         def failing(cands):
             i2, m2 = rerun(cands)
-            return [core.compare_case(c, i2, m2, prop.project) is not None for c in cands]
+            return [core.compare_case(c, i2, m2, prop.project, prop.compare_from(c)) is not None for c in cands]
         return core.shrink(case, failing, prop.shrink_candidates)
 
     # group failures by signature of the un-shrunk case first to bound the work
@@ -204,7 +207,7 @@ def run_property(prop, tier, seed, replay=None):
             if kf:
                 known_hits[sig] = kf
                 continue
-            dd = core.compare_case(small, i2, m2, prop.project) or d
+            dd = core.compare_case(small, i2, m2, prop.project, prop.compare_from(small)) or d
             path = core.write_replay(pid, small, {
                 "property": pid, "kind": "correspondence-disagreement", "signature": sig,
                 "suite": small.suite, "event": dd["event"], "impl": dd["impl"], "model": dd["model"],
